@@ -63,17 +63,14 @@ pub fn init_process_mode(cancelable: bool, no_reporter: bool) {
     if no_reporter {
         return;
     }
-    let before = s.world().total_reports;
+    let _ = s;
+    // every cycle is driven by the harness: the collector thread started by set_reporter is kept
+    // at the beginning of its loop (hook point BackgroundCycle)
+    crate::sched::PARK_BACKGROUND.store(true, std::sync::atomic::Ordering::Relaxed);
     fastrace::set_reporter(
         CaptureReporter,
         Config::default().cancelable(cancelable).report_interval(Duration::from_secs(1_000_000_000)),
     );
-    // wait for the background thread's start-up cycle
-    let t0 = Instant::now();
-    while s.world().total_reports == before {
-        assert!(t0.elapsed() < Duration::from_secs(10), "background collector did not start");
-        std::thread::sleep(Duration::from_micros(200));
-    }
 }
 
 pub fn cancelable() -> bool {
@@ -181,6 +178,14 @@ pub const MAX_STEPS: usize = 200_000;
 
 /// Runs `program` once under the schedule given by `prefix` (choice indices at the decisions,
 /// default 0 afterwards). The caller must have called `init_process`.
+pub fn may_block_program(program: &Program) -> bool {
+    program.actors.iter().any(|a| a.ops.iter().any(|o| matches!(o, Op::SetReporter)))
+}
+
+fn _any_detached(w: &crate::sched::World) -> bool {
+    w.actors.iter().any(|a| a.detached)
+}
+
 pub fn run_once(program: &Program, prefix: &[u32]) -> Execution {
     let s = sched();
     let t_start = Instant::now();
@@ -237,13 +242,29 @@ pub fn run_once(program: &Program, prefix: &[u32]) -> Execution {
     let mut preemptions = 0u32;
     let mut outcome = Outcome::Completed;
     let mut blocked_during_report = false;
+    let may_block = may_block_program(program);
+    let mut idle_since: Option<Instant> = None;
     loop {
-        let w = match s.wait_for_control(STEP_TIMEOUT) {
-            Ok(w) => w,
-            Err(_) => {
-                outcome = Outcome::Hang;
-                break;
+        let w = {
+            let t0 = Instant::now();
+            loop {
+                match s.wait_for_control(if may_block { Duration::from_millis(100) } else { STEP_TIMEOUT }) {
+                    Ok(w) => break Some(w),
+                    Err(_) => {
+                        // an actor waiting for a mutex inside set_reporter: let the holder run
+                        if may_block && s.try_detach_current() {
+                            continue;
+                        }
+                        if t0.elapsed() >= STEP_TIMEOUT {
+                            break None;
+                        }
+                    }
+                }
             }
+        };
+        let Some(w) = w else {
+            outcome = Outcome::Hang;
+            break;
         };
         // join actors that finished (their thread-local destructors run before anyone else moves)
         let to_join: Vec<usize> =
@@ -267,7 +288,27 @@ pub fn run_once(program: &Program, prefix: &[u32]) -> Execution {
                 }
             }
         }
-        let w = s.world();
+        let mut w = s.world();
+        if may_block {
+            // An actor that was left waiting for a mutex inside set_reporter rejoins the schedule at
+            // the first decision after the mutex was released: while a parked collector actor holds
+            // the collector's mutex it stays away (a short grace period for a call that is past
+            // the mutex already); otherwise it is on its way to its next scheduling point.
+            let t0 = Instant::now();
+            let mut gave_up = false;
+            while w.actors.iter().any(|a| a.detached) {
+                let limit = if w.cycle_in_progress { Duration::from_millis(5) } else { STEP_TIMEOUT };
+                if t0.elapsed() >= limit {
+                    gave_up = !w.cycle_in_progress;
+                    break;
+                }
+                w = s.wait_change(w, Duration::from_millis(1));
+            }
+            if gave_up {
+                outcome = Outcome::Hang;
+                break;
+            }
+        }
         if w.actors.iter().all(|a| a.finished) {
             break;
         }
@@ -278,9 +319,21 @@ pub fn run_once(program: &Program, prefix: &[u32]) -> Execution {
             blocked_during_report = true;
         }
         if enabled.is_empty() {
+            if may_block {
+                // an actor still inside set_reporter (or the start-up cycle of the collector thread
+                // it spawned, which holds the collector's mutex for a moment): wait for it
+                let since = *idle_since.get_or_insert_with(Instant::now);
+                if since.elapsed() < STEP_TIMEOUT {
+                    let _w = s.wait_change(w, Duration::from_millis(5));
+                    continue;
+                }
+                outcome = if _any_detached(&w) { Outcome::Hang } else { Outcome::Deadlock };
+                break;
+            }
             outcome = Outcome::Deadlock;
             break;
         }
+        idle_since = None;
         // Invisible steps commute with everything and disable nobody: starting an actor (it runs
         // thread-local code up to its first real point) and the exit of a collector actor (its
         // thread owns no command queue). Run them at once, without a decision.
@@ -466,7 +519,24 @@ pub fn explore(
             st.capped = true;
             break;
         }
-        let ex = run_once(program, &prefix);
+        let mut ex = run_once(program, &prefix);
+        // Programs that call set_reporter have an actor wait on a real mutex; when it rejoins the
+        // schedule depends on real time in rare cases. A run that did not follow the prefix is
+        // repeated, and the branch is given up (and counted as a cap) if it never does.
+        if may_block_program(program) {
+            let mut tries = 0;
+            while tries < 5
+                && matches!(ex.outcome, Outcome::Completed | Outcome::Diverged(_))
+                && (matches!(ex.outcome, Outcome::Diverged(_)) || ex.choices.len() < prefix.len() || ex.choices[..prefix.len()] != prefix[..])
+            {
+                tries += 1;
+                ex = run_once(program, &prefix);
+            }
+            if matches!(ex.outcome, Outcome::Diverged(_)) || ex.choices.len() < prefix.len() || ex.choices[..prefix.len()] != prefix[..] {
+                st.capped = true;
+                continue;
+            }
+        }
         st.executions += 1;
         st.transitions += ex.steps.len() as u64;
         st.decisions += ex.decisions.len() as u64;
